@@ -216,7 +216,7 @@ def snapshot_factor(phi):
     }
 
 
-def make_frame(world, names, rows, columns=None, as_category=None, weights=None):
+def make_frame(world, names, rows, columns=None, as_category=None, weights=None, spare_category=False):
     """rows of logical state indices -> DataFrame with real labels / state names.
     str / mixed state names become categorical columns (declared categories = the variable's states),
     int state names stay integer columns (pandas 3 'str' dtype columns are not accepted by pgmpy)."""
@@ -231,7 +231,11 @@ def make_frame(world, names, rows, columns=None, as_category=None, weights=None)
         if all_int and not as_category:
             data[names.L(v)] = pd.Series(vals, dtype="int64")
         else:
-            data[names.L(v)] = pd.Series(pd.Categorical(vals, categories=list(sts)))
+            cats = list(sts)
+            if spare_category and all(isinstance(x, str) for x in cats):
+                # a frame cut out of a bigger one: the dtype still lists a category that occurs in no row
+                cats = cats + ["zz_unused_category"]
+            data[names.L(v)] = pd.Series(pd.Categorical(vals, categories=cats))
     df = pd.DataFrame(data, columns=[names.L(v) for v in cols])
     if weights is not None:
         df["_weight"] = [float(w) for w in weights]
